@@ -705,19 +705,26 @@ def shrink_forest(im, v):
     return best
 
 
+def systematic_forests():
+    """smallest first: single chains of depth 1..6, linear then affine"""
+    specs = []
+    for d in range(1, 7):
+        specs.append(chain_forest([(2 + i, 0) for i in range(d)]))
+        specs.append(chain_forest([(2 + i, (i + 1) ** 2) for i in range(d)]))   # no common fixed point: no two links commute
+    return specs
+
+
 def oracle_forests(im, r, n, first=()):
-    v = oracle_forests_raw(im, r, n, first)
+    v = oracle_forests_raw(im, r, list(first))
+    if v:                                    # shrink: the smallest systematic chain with the same failure
+        w = oracle_forests_raw(im, r, systematic_forests())
+        return shrink_forest(im, w if w and w["fingerprint"] == v["fingerprint"] else v)
+    v = oracle_forests_raw(im, r, systematic_forests() + [gen_forest(r) for _ in range(n)])
     return shrink_forest(im, v) if v else None
 
 
-def oracle_forests_raw(im, r, n, first=()):
+def oracle_forests_raw(im, r, specs):
     xs = [Fraction(1), Fraction(0), Fraction(7, 2), Fraction(-3)]
-    specs = list(first)
-    # smallest first: single chains of depth 1..6, linear then affine
-    for d in range(1, 7):
-        specs.append(chain_forest([(2 + i, 0) for i in range(d)]))
-        specs.append(chain_forest([(2 + i, i + 1) for i in range(d)]))
-    specs += [gen_forest(r) for _ in range(n)]
     for spec in specs:
         m = len(spec)
         for a in range(m):
@@ -877,7 +884,7 @@ def run(ctx):
     forest = []
     depth_seen = {}
     for k in range(n_forest):
-        spec = gen_forest(r) if k >= 12 else chain_forest([(2 + i, (k % 2) * (i + 1)) for i in range(k // 2 + 1)])
+        spec = gen_forest(r) if k >= 12 else chain_forest([(2 + i, (k % 2) * (i + 1) ** 2) for i in range(k // 2 + 1)])
         m = len(spec)
         for q in range(5):
             a, b = (r.randrange(m), r.randrange(m)) if q else (m - 1, m - 1)
